@@ -30,7 +30,16 @@ def _bucket(tier):
                   '{None,1,2,4} x max_total_size {None,6,10} x drop modes' % (5 if tier == 'quick' else 7))
 
 
-EXTRA = {'C17': [('bounded-bucket-iter', _bucket)]}
+def _shuffle(tier):
+    from harness import shuffle_standin
+    c, f = shuffle_standin.search(tier)
+    c2, f2 = shuffle_standin.search_random_choice(200 if tier == 'quick' else 1500)
+    return c + c2, f + f2, ('dataset sizes up to 9 (17 thorough), 6 (40) seeds, buffer sizes {1,2,3,n,n+1}; '
+                            'random_choice on sizes up to 3001 with 200 (1500) seeds')
+
+
+EXTRA = {'C17': [('bounded-bucket-iter', _bucket)], 'C12': [('bounded-shuffles', _shuffle)],
+         'C13': [('bounded-seed-determinism', _shuffle)]}
 
 
 def known_finding_of(cls, mismatch, findings):
